@@ -114,6 +114,66 @@ Fixpoint locs_chain (prev : loc) (l : list (loc * loc)) : Prop :=
   | (s, e) :: r => lex_le prev s /\ lex_le s e /\ locs_chain e r
   end.
 
+Definition nloc_pair (p : N * N) : loc := (N.to_nat (fst p), N.to_nat (snd p)).
+
+(* ---- token conversion: the position mapping of the position-tracking parser ---- *)
+(* A tokenizer token as the converter sees it: its reported span and the byte lengths of the literals of the
+   parser tokens it expands to ([w] for an ordinary token; [5; 2] for "GROUP BY", ...). *)
+Record srctok := { st_start : loc; st_end : loc; st_parts : list nat }.
+
+(* compoundPartSpan (token_conversion.go): the first keyword occupies len(literal) columns from the start, the
+   last keyword the len(literal) columns before the end, a middle keyword lies between them; when the span
+   cannot hold the words every part keeps the span of the whole token.
+   [own = false] is the behaviour before the repair: every part carries the whole token's span. *)
+Definition fits (s e : loc) (ws : list nat) : bool :=
+  let n := length ws in
+  let first_end := (fst s, snd s + nth 0 ws 0) in
+  let wl := nth (n - 1) ws 0 in
+  let last_start := (fst e, snd e - wl) in
+  (2 <=? n) && (1 <=? fst s)                      (* !(n < 2 || t.Start.Line < 1) *)
+  && (wl <? snd e)                                (* !(lastStart.Column < 1) : End.Column - len >= 1 *)
+  && lex_leb first_end last_start.                (* !(lastStart before firstEnd) *)
+Definition part_span (own : bool) (s e : loc) (ws : list nat) (i : nat) : loc * loc :=
+  let n := length ws in
+  let first_end := (fst s, snd s + nth 0 ws 0) in
+  let last_start := (fst e, snd e - nth (n - 1) ws 0) in
+  if own && fits s e ws then
+    if i =? 0 then (s, first_end)
+    else if i =? n - 1 then (last_start, e)
+    else (first_end, last_start)
+  else (s, e).
+
+Definition tok_positions (own : bool) (oi : nat) (t : srctok) : list (nat * (loc * loc)) :=
+  match st_parts t with
+  | [] | [_] => [(oi, (st_start t, st_end t))]
+  | ws => map (fun i => (oi, part_span own (st_start t) (st_end t) ws i)) (seq 0 (length ws))
+  end.
+
+(* tokenConverter.convert: PositionMapping (OriginalIndex, (Start, End)), one entry per converted token *)
+Fixpoint conv_positions (own : bool) (oi : nat) (ts : list srctok) : list (nat * (loc * loc)) :=
+  match ts with
+  | [] => []
+  | t :: r => tok_positions own oi t ++ conv_positions own (S oi) r
+  end.
+
+(* number of parser tokens a tokenizer token expands to *)
+Definition nparts (t : srctok) : nat := match st_parts t with [] => 1 | ws => length ws end.
+Fixpoint flat_index (ts : list srctok) (oi : nat) : nat :=       (* index of the first parser token of ts[oi] *)
+  match oi, ts with
+  | S k, t :: r => nparts t + flat_index r k
+  | _, _ => 0
+  end.
+
+(* Parser.currentLocation: positions == nil || currentPos >= len(positions) -> Location{} *)
+Definition current_location (positions : option (list (nat * (loc * loc)))) (cursor : nat) : loc :=
+  match positions with
+  | None => (0, 0)
+  | Some ps => match nth_error ps cursor with
+               | Some p => fst (snd p)
+               | None => (0, 0)
+               end
+  end.
+
 (* ---- evaluation helpers for the correspondence (cases generated by lib/c05.py) ---- *)
 Definition loc_eqb (a b : loc) : bool := (fst a =? fst b) && (snd a =? snd b).
 Definition nloc (p : N * N) : loc := (N.to_nat (fst p), N.to_nat (snd p)).
@@ -143,3 +203,22 @@ Fixpoint bad_idx {A} (f : A -> bool) (i : N) (l : list A) : list N :=
   | [] => []
   | x :: r => if f x then bad_idx f (i + 1)%N r else i :: bad_idx f (i + 1)%N r
   end.
+
+(* parser-side case: source tokens (span + part lengths), the implementation's position mapping, the cursor and
+   the location the returned error carries *)
+Definition pos_entry_eqb (a : nat * (loc * loc)) (b : nat * (loc * loc)) : bool :=
+  (fst a =? fst b) && loc_eqb (fst (snd a)) (fst (snd b)) && loc_eqb (snd (snd a)) (snd (snd b)).
+Fixpoint pos_list_eqb (a b : list (nat * (loc * loc))) : bool :=
+  match a, b with
+  | [], [] => true
+  | x :: r, y :: r' => pos_entry_eqb x y && pos_list_eqb r r'
+  | _, _ => false
+  end.
+Definition mk_srctok (q : (N * N) * (N * N) * list N) : srctok :=
+  let '(s, e, ws) := q in {| st_start := nloc_pair s; st_end := nloc_pair e; st_parts := map N.to_nat ws |}.
+Definition parse_case_ok (own : bool)
+  (c : list ((N * N) * (N * N) * list N) * list (N * ((N * N) * (N * N))) * N * (N * N)) : bool :=
+  let '(toks, impl_pos, cursor, errloc) := c in
+  let ps := conv_positions own 0 (map mk_srctok toks) in
+  pos_list_eqb ps (map (fun p => (N.to_nat (fst p), (nloc_pair (fst (snd p)), nloc_pair (snd (snd p))))) impl_pos)
+  && loc_eqb (current_location (Some ps) (N.to_nat cursor)) (nloc_pair errloc).
